@@ -161,7 +161,7 @@ impl Gen {
         }
         let dd = d.saturating_sub(1);
         match ty {
-            Ty::U32 => match if leaf { self.rng.below(2) } else { self.rng.below(8) } {
+            Ty::U32 => match if leaf { self.rng.below(2) } else { self.rng.below(9) } {
                 0 => self.small(),
                 1 => self.rng.pick(&["n", "m"]).to_string(),
                 2 => format!("id({})", self.expr(Ty::Tk, dd)),
@@ -172,9 +172,13 @@ impl Gen {
                     self.mark("field-read");
                     format!("{}.k", self.place_expr(Ty::R, dd))
                 }
+                7 => {
+                    self.mark("list-index");
+                    format!("match {}.index({}) {{ Some(ix) => 1, None => 0 }}", self.list_recv(dd), self.expr(Ty::Tk, dd))
+                }
                 _ => format!("id({})", self.expr(Ty::Tk, dd)),
             },
-            Ty::Bool => match if leaf { self.rng.below(2) } else { self.rng.below(10) } {
+            Ty::Bool => match if leaf { self.rng.below(2) } else { self.rng.below(11) } {
                 0 => "c".to_string(),
                 1 => self.rng.pick(&["true", "false"]).to_string(),
                 2 => format!("({} == {})", self.expr(Ty::U32, dd), self.expr(Ty::U32, dd)),
@@ -196,6 +200,10 @@ impl Gen {
                 8 => {
                     self.mark("or");
                     format!("({} || {})", self.expr(Ty::Bool, dd), self.expr(Ty::Bool, dd))
+                }
+                9 => {
+                    self.mark("list-contains");
+                    format!("{}.contains({})", self.list_recv(dd), self.expr(Ty::Tk, dd))
                 }
                 _ => format!("(!{})", self.expr(Ty::Bool, dd)),
             },
@@ -269,7 +277,7 @@ impl Gen {
                     format!("{}.get(0)", self.expr(Ty::ListTk, dd))
                 }
             },
-            Ty::ListTk => match if leaf { self.rng.below(2) } else { self.rng.below(5) } {
+            Ty::ListTk => match if leaf { self.rng.below(2) } else { self.rng.below(6) } {
                 0 => "many(n)".to_string(),
                 1 => "[]".to_string() + "",
                 2 => {
@@ -279,6 +287,10 @@ impl Gen {
                     format!("[{}]", items.join(", "))
                 }
                 3 => format!("many({})", self.expr(Ty::U32, dd)),
+                4 => {
+                    self.mark("list-concat-method");
+                    format!("{}.concat({})", self.list_recv(dd), self.expr(Ty::ListTk, dd))
+                }
                 _ => {
                     self.mark("list-concat");
                     format!("({} + {})", self.expr(Ty::ListTk, dd), self.expr(Ty::ListTk, dd))
@@ -308,6 +320,51 @@ impl Gen {
                 }
                 _ => "E.C".to_string(),
             },
+        }
+    }
+
+    /// the receiver of a list method: a list variable, an empty literal with its type known
+    /// from a `let`, or a list of 0 / n / m elements
+    fn list_recv(&mut self, d: u32) -> String {
+        let vars = self.vars_of(Ty::ListTk);
+        if !vars.is_empty() && self.rng.chance(1, 2) {
+            return self.rng.pick(&vars).clone();
+        }
+        match self.rng.below(4) {
+            0 => "many(0)".to_string(),
+            1 => "many(n)".to_string(),
+            2 => "many(m)".to_string(),
+            _ => format!("({})", self.expr(Ty::ListTk, d)),
+        }
+    }
+
+    /// the examinee of a match: an expression, or (one time in three) a local variable the
+    /// guards can assign to — an existing one or a fresh `let` in a block around the match
+    /// (third component: that `let`)
+    fn examinee(&mut self, ty: Ty, d: u32) -> (String, Option<String>, Option<String>) {
+        if self.rng.chance(1, 3) {
+            let vars: Vec<String> = self.vars_of(ty).into_iter().filter(|v| v.starts_with('v')).collect();
+            if !vars.is_empty() && self.rng.chance(1, 2) {
+                let v = self.rng.pick(&vars).clone();
+                return (v.clone(), Some(v), None);
+            }
+            let e = self.expr(ty, d.min(1));
+            let v = self.name("v");
+            return (v.clone(), Some(v.clone()), Some(format!("let {v}: {} = {e};", ty_name(ty))));
+        }
+        (self.expr(ty, d), None, None)
+    }
+
+    /// a guard; if the examinee is a variable, now and then one that assigns to it first
+    fn guard(&mut self, var: &Option<String>, ty: Ty, d: u32) -> String {
+        let g = self.expr(Ty::Bool, d);
+        match var {
+            Some(v) if self.rng.chance(1, 2) => {
+                self.mark("guard-assigns-examinee");
+                let e = self.expr(ty, d.min(1));
+                format!("{{ {v} = {e}; {g} }}")
+            }
+            _ => g,
         }
     }
 
@@ -342,14 +399,14 @@ impl Gen {
 
     fn match_opt(&mut self, ty: Ty, d: u32) -> String {
         self.mark("match-option");
-        let scrut = self.expr(Ty::OptTk, d);
+        let (scrut, svar, prefix) = self.examinee(Ty::OptTk, d);
         let mut arms = Vec::new();
         let guards = self.rng.below(3);
         for _ in 0..guards {
             self.mark("match-guard");
             let y = self.name("y");
             self.env.push((y.clone(), Ty::Tk));
-            let g = self.expr(Ty::Bool, d);
+            let g = self.guard(&svar, Ty::OptTk, d);
             let body = self.expr(ty, d);
             self.env.pop();
             arms.push(format!("Some({y}) if {g} => {body}"));
@@ -386,19 +443,23 @@ impl Gen {
                 arms.push(some);
             }
         }
-        format!("match {scrut} {{ {} }}", arms.join(", "))
+        match prefix {
+            // in parentheses: a block that opens an f-string interpolation would read `{{`
+            Some(p) => format!("({{ {p} match {scrut} {{ {} }} }})", arms.join(", ")),
+            None => format!("match {scrut} {{ {} }}", arms.join(", ")),
+        }
     }
 
     fn match_enum(&mut self, ty: Ty, d: u32) -> String {
         self.mark("match-enum");
-        let scrut = self.expr(Ty::E, d);
+        let (scrut, svar, prefix) = self.examinee(Ty::E, d);
         let mut arms = Vec::new();
         if self.rng.chance(1, 2) {
             self.mark("match-guard");
             let (q, x) = (self.name("q"), self.name("x"));
             self.env.push((q.clone(), Ty::Str));
             self.env.push((x.clone(), Ty::Tk));
-            let g = self.expr(Ty::Bool, d);
+            let g = self.guard(&svar, Ty::E, d);
             let body = self.expr(ty, d);
             self.env.pop();
             self.env.pop();
@@ -422,7 +483,11 @@ impl Gen {
             arms.push(format!("B({q}, {x}) => {body}"));
             arms.push(format!("C => {}", self.expr(ty, d)));
         }
-        format!("match {scrut} {{ {} }}", arms.join(", "))
+        match prefix {
+            // in parentheses: a block that opens an f-string interpolation would read `{{`
+            Some(p) => format!("({{ {p} match {scrut} {{ {} }} }})", arms.join(", ")),
+            None => format!("match {scrut} {{ {} }}", arms.join(", ")),
+        }
     }
 
     fn any_ty(&mut self) -> Ty {
@@ -566,8 +631,12 @@ impl Gen {
             self.env.pop();
             return format!("for {e} in {l} {{ {body}}}");
         }
-        self.mark("list-push");
         let ls = self.vars_of(Ty::ListTk);
+        if !ls.is_empty() && self.rng.chance(1, 4) {
+            self.mark("list-swap");
+            return format!("{}.swap(0, 1);", self.rng.pick(&ls));
+        }
+        self.mark("list-push");
         if let Some(l) = ls.first().cloned() {
             return format!("{l}.push({});", self.expr(Ty::Tk, d1));
         }
